@@ -94,9 +94,75 @@ func hwWriterCalls() []string {
 	return out
 }
 
+// waitForHWRechecks reports whether commitLog.waitForHW, AFTER taking the log lock, compares the
+// reader's HW sample with l.hw in an if statement whose body answers on the channel at once
+// (`wait <- false`) and whose else chain is the only place where the reader is registered
+// (`l.hwWaiters[r] = wait`). A waitForHW without that shape parks a reader on a stale sample: the
+// model is then generated WITHOUT the re-check (Gen.HWReader.waitRechecks = false: the proofs of
+// no_lost_wakeup no longer check and the driver predicts the lost wake-up), and the shape is
+// reported as a lost decision point as well.
+func waitForHWRechecks() bool {
+	f := load(commitlogGo)
+	fd := f.fn("commitLog.waitForHW")
+	if fd == nil || fd.Body == nil {
+		lost = append(lost, commitlogGo+":commitLog.waitForHW (function not found)")
+		return false
+	}
+	const reg = "l.hwWaiters[r]=wait"
+	contains := func(n ast.Node, text string) int {
+		c := 0
+		if n == nil {
+			return 0
+		}
+		ast.Inspect(n, func(x ast.Node) bool {
+			if st, ok := x.(ast.Stmt); ok {
+				if _, isBlock := st.(*ast.BlockStmt); !isBlock && nows(f.src(st)) == text {
+					c++
+				}
+			}
+			return true
+		})
+		return c
+	}
+	locked, ok := false, false
+	for _, st := range fd.Body.List {
+		txt := nows(f.src(st))
+		if txt == "l.mu.Lock()" {
+			locked = true
+			continue
+		}
+		if txt == "l.mu.Unlock()" {
+			locked = false
+			continue
+		}
+		is, isIf := st.(*ast.IfStmt)
+		if !isIf || !locked {
+			continue
+		}
+		be, isCmp := is.Cond.(*ast.BinaryExpr)
+		if !isCmp {
+			continue
+		}
+		if _, isRel := cmpName[be.Op]; !isRel || nows(f.src(be.X)) != "l.hw" || nows(f.src(be.Y)) != "hw" {
+			continue
+		}
+		// the branch taken when the sample is stale answers at once and does not register;
+		// the registration is in the else chain and nowhere else in the function
+		if contains(is.Body, "wait<-false") == 1 && contains(is.Body, reg) == 0 &&
+			is.Else != nil && contains(is.Else, reg) == 1 && contains(fd.Body, reg) == 1 {
+			ok = true
+		}
+	}
+	if !ok {
+		lost = append(lost, commitlogGo+":commitLog.waitForHW: if l.hw ? hw { wait <- false } else ... { l.hwWaiters[r] = wait } under l.mu (re-check before parking)")
+	}
+	return ok
+}
+
 func genHWReader() *leanFile {
 	l := newLean("HWReader", "/repo/server/commitlog/{commitlog,reader}.go, /repo/server/partition.go")
 	l.cmp("waitRecheckCmp", commitlogGo, "commitLog.waitForHW", "l.hw ? hw", 0, "ne")
+	l.def("waitRechecks", "Bool", fmt.Sprint(waitForHWRechecks()), "l.mu.Lock(); if l.hw ? hw { wait <- false } else ... { l.hwWaiters[r] = wait }  (commitLog.waitForHW re-checks the HW under the log lock before it parks the reader)")
 	l.cmp("waitReadonlyCmp", commitlogGo, "commitLog.waitForHW", "l.hw ? l.NewestOffset()", 0, "eq")
 	l.cmp("notifyReadonlyCmp", commitlogGo, "commitLog.notifyReadonly", "l.hw ? l.NewestOffset()", 0, "lt")
 	l.cmp("readerHWSameCmp", readerGo, "committedReader.readLoop", "hw ? r.hw", 0, "eq")
